@@ -48,7 +48,7 @@ def make_recipe(rng, tier):
     nmax = 70 if tier == "quick" else (300 if rng.random() < 0.05 else 110)
     n = nmin if rng.random() < 0.06 else int(rng.integers(nmin, max(nmin + 1, nmax)))
     kind = ["mean_changes", "weak_changes", "noise", "small_alphabet", "piecewise_const", "spikes",
-            "var_changes", "dyadic", "ramp"][int(rng.integers(9))]
+            "var_changes", "dyadic", "ramp", "flat", "steps"][int(rng.integers(11))]
     X, _ = gen_data(rng, n, p, kind, boundary=spec["kw"]["bandwidth"])
     int_dtype = bool(rng.random() < 0.15)
     if int_dtype:
@@ -138,7 +138,12 @@ def exec_case(ctx, r):
                       r, {"t": t})
         return
     cp = [int(c) for c in y["ilocs"].tolist()]
-    runs = runs_above(scores, thr)
+    # runs are formed over the positions where a score is defined, b <= t <= n-b: the zero filler
+    # outside is not a score (it only matters for a tuned threshold that is negative by rounding
+    # error; reading in DESIGN s7)
+    runs = [(a + b, e + b) for a, e in runs_above(scores[b:n - b + 1], thr)]
+    if thr < 0:
+        ctx.stat("cases[negative tuned threshold]")
     kept = [(a, e) for a, e in runs if e - a >= mdi]
     ctx.stat("runs_checked", len(runs))
     ctx.stat("runs_below_min_detection_interval", len(runs) - len(kept))
